@@ -429,7 +429,10 @@ def vl_rules(ctx):
             if isinstance(t, ast.Name) and isinstance(v, ast.Call) and \
                     res(v.func) == 'numpy.zeros':
                 shp = norm_text(v.args[0])
-                ok = shp in ('(2 * %s, 2 * %s)' % (nvar, nvar),)
+                dims = v.args[0].elts if isinstance(v.args[0], ast.Tuple) else []
+                ok = len(dims) == 2 and all(
+                    norm_text(d_) in ('2 * %s' % nvar, '%s * 2' % nvar, '%s + %s' % (nvar, nvar))
+                    for d_ in dims)
                 ctx.ob('VL-BLOCK', ok, None, 'block matrix is 2n x 2n', f=f, node=st,
                        why='block matrix allocated with shape %s' % shp)
                 big = t.id
